@@ -349,6 +349,41 @@ def api_cases(rng, n):
     return out
 
 
+def same_value_cases(rng, n):
+    """a read-only / constant entry whose current value sits in data_store (the application set it through the local
+    API), default or parameter value; an SDO write carrying EXACTLY the current bytes (expedited and segmented) is
+    still a write to a read-only entry: 0x06010002, nothing changed, no callback"""
+    out = []
+    for _ in range(n):
+        dic, store, ops = [], [], []
+        for k in range(rng.randrange(2, 6)):
+            dt = rng.choice([0x05, 0x06, 0x07, 0x04, 0x1B, 0x08, R.DOMAIN, R.OCTET, R.VISIBLE])
+            nb = R.NUMERIC_BYTES.get(dt) or rng.choice([1, 2, 4, 5, 8, 11])
+            cur = B.rbytes(rng, nb) if dt != R.VISIBLE else [rng.randrange(65, 91) for _ in range(nb)]
+            acc = rng.choice(["ro", "const", "ro", "rw"])
+            idx = 0x2000 + k
+            how = rng.choice(["store", "store", "default", "value"])
+            as_val = {"b": cur}
+            if rng.random() < 0.3:
+                dic.append(dict(index=idx, kind="rec", subs=[B.entry(0, 0x05, "ro", default={"i": 1}),
+                                                             B.entry(1, dt, acc, default=as_val if how == "default" else None, value=as_val if how == "value" else None)]))
+                sub = 1
+            else:
+                dic.append(B.var(idx, dt, acc, default=as_val if how == "default" else None, value=as_val if how == "value" else None))
+                sub = 0
+            if how == "store":
+                store.append((idx, sub, cur))
+            modes = ([0] if 1 <= nb <= 4 else []) + ([1] if nb == 4 else []) + [2, 3]
+            ops += [["u", idx, sub], ["d", idx, sub, cur, rng.choice(modes)], ["d", idx, sub, cur, rng.choice(modes)], ["u", idx, sub]]
+            if rng.random() < 0.5:
+                other = [x ^ 1 for x in cur]
+                ops += [["d", idx, sub, other, rng.choice(modes)], ["u", idx, sub], ["d", idx, sub, cur, rng.choice(modes)]]
+            if 1 <= nb <= 4 and rng.random() < 0.5:        # the same as a raw expedited frame
+                ops += [["f", [0x23 | ((4 - nb) << 2), idx & 255, idx >> 8, sub] + cur + [0] * (4 - nb)]]
+        out.append(B.run_case(dic, ops, [], store))
+    return out
+
+
 def gen_cases(rng, tier):
     reps = {"quick": 1, "thorough": 4, "search": 2}[tier]
     cases = []
@@ -358,6 +393,8 @@ def gen_cases(rng, tier):
         cases += missing_cases(rng)
     cases += between_cases(rng, {"quick": 60, "thorough": 600, "search": 200}[tier])
     cases += random_cases(rng, {"quick": 150, "thorough": 1500, "search": 500}[tier])
+    cases += same_value_cases(rng, {"quick": 60, "thorough": 600, "search": 300}[tier])
+    cases += B.callback_cases(rng, {"quick": 30, "thorough": 300, "search": 150}[tier])
     cases += client_cases(rng, tier)
     cases += api_cases(rng, {"quick": 60, "thorough": 600, "search": 200}[tier])
     return cases
